@@ -318,15 +318,15 @@ func (c *Ctx) Violations() int { c.mu.Lock(); defer c.mu.Unlock(); return len(c.
 
 // ChildResult is what a child process hands back to its parent.
 type ChildResult struct {
-	Evals      int64             `json:"evals"`
-	Nontrivial []string          `json:"nontrivial"`
-	Samples    []any             `json:"samples"`
-	Counters   map[string]int64  `json:"counters"`
-	Violations []Violation       `json:"violations"`
-	Inconcl    map[string]int64  `json:"inconclusive"`
-	Extra      map[string]any    `json:"extra"`
-	KnownHits  map[string]int64  `json:"known_hits"`
-	KnownWhat  map[string]string `json:"known_what"`
+	Evals      int64               `json:"evals"`
+	Nontrivial []string            `json:"nontrivial"`
+	Samples    []any               `json:"samples"`
+	Counters   map[string]int64    `json:"counters"`
+	Violations []Violation         `json:"violations"`
+	Inconcl    map[string]int64    `json:"inconclusive"`
+	Extra      map[string]any      `json:"extra"`
+	KnownHits  map[string]int64    `json:"known_hits"`
+	KnownWhat  map[string]string   `json:"known_what"`
 	Sets       map[string][]string `json:"sets,omitempty"`
 }
 
